@@ -1,5 +1,7 @@
 package gowarc
 
+import "bufio"
+
 // White-box access for the verification harness (injected at build time with -overlay as
 // /repo/zz_verif_export.go; never part of the repository).
 
@@ -22,4 +24,29 @@ func VerifValidateHeader(pairs [][2]string, vid int, spec, unk int) (rt uint16, 
 	validation := &Validation{}
 	t, err := validateHeader(wf, version, validation, opts)
 	return uint16(t), wf.String(), []error(*validation), err
+}
+
+// VerifParseFields runs warcfieldsParser.Parse on r.
+func VerifParseFields(r *bufio.Reader, policy int) (wf *WarcFields, findings []error, err error) {
+	p := &warcfieldsParser{Options: newOptions(WithSyntaxErrorPolicy(errorPolicy(policy)))}
+	v := &Validation{}
+	wf, err = p.Parse(r, v, &position{})
+	return wf, []error(*v), err
+}
+
+// VerifErrClass classifies an error returned by the parser.
+func VerifErrClass(err error) string {
+	switch {
+	case err == nil:
+		return "nil"
+	case err == errEndOfHeaders:
+		return "eoh"
+	}
+	if _, ok := err.(*SyntaxError); ok {
+		return "syn"
+	}
+	if err.Error() == "missing End of WARC-Fields marker" {
+		return "mrk"
+	}
+	return "other"
 }
